@@ -3,7 +3,7 @@ CHECKS = {
  "C09": {
   "level": "model_checking",
   "technique": "TLA+ spec (Fragments.tla) model-checked with TLC; every model transition replayed on the real FragmentAssembler (state-graph edge replay)",
-  "text": "TLC exhaustively checks that the implementation-shaped layer of Fragments.tla refines the protocol-level layer (return value on every call, held data, isolation) for 2-3 interleaved sequences, every arrival order, duplicates, out-of-range ids, header first/middle/last, expiry and clear; the as-coded and the weakened switch settings are required to produce counterexamples (non-vacuity). Every transition of the emitted state graph is then executed on the real object from its source state and the returned bytes and held pieces are compared with the abstract layer.",
+  "text": "TLC exhaustively checks that the implementation-shaped layer of Fragments.tla refines the protocol-level layer (return value on every call, held data, isolation) for 2-3 interleaved sequences, every arrival order, duplicates, out-of-range ids, header first/middle/last, expiry and clear; the as-coded and the weakened switch settings are required to produce counterexamples (non-vacuity). Every transition of the emitted state graph is then executed on the real object from its source state and the returned bytes and held pieces are compared with the abstract layer. Each edge is replayed with three payload maps, one of them giving the header fragment an atom-cache section, which must come out in front of the message.",
   "design_ref": "DESIGN.md §5 C09, §2.2 B2",
   "note": "Bounded: <=2 sequences x n<=4 (thorough) / n<=3 (quick) fragments in the replayed graph; tokens stand for payloads (two payload maps). Trusted: TLC, harness edge replayer, guarded read-only hook verif_snapshot.",
  },
@@ -12,21 +12,21 @@ CHECKS.update({
  "C01": {
   "level": "exploration",
   "technique": "TLA+ reference model of the External Term Format (Etf.tla) evaluated by TLC: universe + canonical encoder replayed into the Rust codec, and the library's bytes parsed back by the TLA+ parser",
-  "text": "Every boundary of the quantifier is a leaf of the TLC-enumerated universe (containers to depth 2, plus seeded random deep terms from the harness); the library's encoding of each value is read by an independent implementation (the TLA+ recursive-descent parser) and must denote the same value, the library's decoder must return a term denoting it, re-encoding must reproduce the bytes, and unencodable sizes must be reported as errors. Bounded universe + differential reference model, hence exploration.",
+  "text": "Every boundary of the quantifier is a leaf of the TLC-enumerated universe (containers to depth 2, plus seeded random deep terms from the harness); the library's encoding of each value is read by an independent implementation (the TLA+ recursive-descent parser) and must denote the same value, the library's decoder must return a term denoting it, re-encoding must reproduce the bytes, and unencodable sizes must be reported as errors. Bounded universe + differential reference model, hence exploration. The quick universe includes a 16384-word reference (16-bit count x 4), the thorough one 65535-word references, 65535/65536-element lists and 65535-byte atoms.",
   "design_ref": "DESIGN.md §5 C01, §2.2 B1/B1'",
   "note": "Trusted: transcription of the format into Etf.tla (self-checked: parser inverts encoder and every alternative on the universe), harness build/denote projection, TLC. Depth > 2 only through random terms.",
  },
  "C03": {
   "level": "exploration",
   "technique": "TLA+ reference model (Etf.tla AltsDeep/CompressedAlts) enumerates every admissible encoding per node with TLC; vectors replayed into the Rust decoder and compared with the spec's value",
-  "text": "For each value of the universe TLC emits the canonical encoding and every alternative tag choice at the root or at one child (legacy, text-float, string, big-integer widths incl. zero padding, LOCAL_EXT wrapping, COMPRESSED); the library must decode each to exactly the value and reject trailing bytes.",
+  "text": "For each value of the universe TLC emits the canonical encoding and every alternative tag choice at the root or at one child (legacy, text-float, string, big-integer widths incl. zero padding, LOCAL_EXT wrapping, COMPRESSED); the library must decode each to exactly the value and reject trailing bytes. The trailing-byte test is applied to the canonical and to every alternative encoding (also after a top-level COMPRESSED section): decode must fail, decode_with_trailing must hand the byte back.",
   "design_ref": "DESIGN.md §5 C03",
   "note": "One alternative per encoding (root or one child), FLOAT_EXT texts and zlib streams from python tables. Open finding C03-mapmerge is matched by input class (numerically-equal distinct keys) and deviation (entries merged, nothing else changed).",
  },
  "C10": {
   "level": "exploration",
   "technique": "TLA+ model of identifiers with node-local form (Etf.tla, EtfUniverse!IdUniverse) enumerated by TLC; bytes replayed through decode, conversion scripts and encode in the Rust code",
-  "text": "All identifier kinds x plain/3 node-local hashes x 13-14 nesting contexts x all clone/borrow/move scripts up to length 2 (quick) / 4 (thorough): re-encoding must give back the spec's bytes; plain and node-local twins must agree under ==, hash, cmp and set lookup in both term types.",
+  "text": "All identifier kinds x plain/3 node-local hashes x 13-14 nesting contexts x all clone/borrow/move scripts up to length 2 (quick) / 4 (thorough): re-encoding must give back the spec's bytes; plain and node-local twins must agree under ==, hash, cmp and set lookup in both term types. Twins are plain <-> node-local and node-local <-> node-local with different opaque bytes.",
   "design_ref": "DESIGN.md §5 C10",
   "note": "Bounded universe of identifiers and contexts; LOCAL_EXT layout as the code models it (8 opaque bytes + term).",
  },
@@ -90,21 +90,21 @@ CHECKS["C04"] = {
 CHECKS["C16"] = {
   "level": "model_checking",
   "technique": "TLA+ spec of the allocators with one action per atomic step (PidAlloc.tla) model-checked by TLC over all interleavings; real allocator executed under a deterministic thread scheduler (guarded sync points, lock probe) on enumerated, random and adversarial (weakened-spec counterexample) schedules; recorded traces validated by TLC (Trace_PidAlloc.tla)",
-  "text": "TLC explores every interleaving of 2-3 concurrent allocate() calls from the start, the id wrap and the serial wrap (scaled constants) and of two make_reference calls, and finds the duplicate-pid schedule when the mutex is not enforced. That schedule, every interleaving of two allocations (sampled in the quick tier) and seeded random schedules of 2-4 threads are forced on the real PidAllocator / Node::make_reference at the real wrap positions (2^20 ids, 2^32 serials, u32 counter); TLC then accepts the recorded trace as a behaviour of the spec with Unique, CreationInForce and RefUnique checked in every state, falling back to the lock-free spec to separate drift from a property violation.",
+  "text": "TLC explores every interleaving of 2-3 concurrent allocate() calls from the start, the id wrap and the serial wrap (scaled constants) and of two make_reference calls, and finds the duplicate-pid schedule when the mutex is not enforced. That schedule, every interleaving of two allocations (sampled in the quick tier) and seeded random schedules of 2-4 threads are forced on the real PidAllocator / Node::make_reference at the real wrap positions (2^20 ids, 2^32 serials, u32 counter); TLC then accepts the recorded trace as a behaviour of the spec with Unique, CreationInForce and RefUnique checked in every state, falling back to the lock-free spec to separate drift from a property violation. The fall-back chain is locked spec -> no mutual exclusion -> reads of non-current values -> only calls and results bound; the invariants include NoReissue (nothing before the observation's origin is issued again) and IssuedIsSequence (what was issued is exactly the first n members of the closed-form sequence SeqIssue, TLC-checked against the step spec). Free-running bulk runs (3.1 M allocations across the 32-bit serial wrap and three trips; 300 000 references) are compared with SeqIssue / the counter values. Thorough tier: Apalache discharges the inductive invariant of spec/apalache/PidAllocInd.tla (unbounded allocations, any MaxId).",
   "design_ref": "DESIGN.md §5 C16, §2.4",
   "note": "Interleavings are controlled only at the guarded hook points (one per atomic step); preemption between two hooks is not explored. Serials / words logged relative to their start value (bijection) because TLC integers are 32-bit.",
 }
 CHECKS["C17"] = {
   "level": "model_checking",
   "technique": "TLA+ spec of callers, outstanding-call table, receiver and peer (Rpc.tla) model-checked by TLC incl. weakened variants; TLC-generated behaviours (exhaustive / simulated) executed step by step on the real Node through guarded async scheduling points against a scripted peer; outcomes compared with the model",
-  "text": "TLC checks OwnReplyOnly, AtMostOnce and NothingLeft over every interleaving of 2-3 callers with own, duplicate, stray and late replies and connection up / absent / broken, and finds the leak counterexamples for LeakOnSendError and for a missing removal on timeout. Behaviours of the model (schedules of alloc / insert / send / timeout / cleanup / reply / route steps) drive the real rpc_call_raw_with_timeout and receiver task; each caller's result must be its own reply or an error, a reply in time must be delivered, and the outstanding-call table must be empty at the end.",
+  "text": "TLC checks OwnReplyOnly, AtMostOnce and NothingLeft over every interleaving of 2-3 callers with own, duplicate, stray and late replies and connection up / absent / broken, and finds the leak counterexamples for LeakOnSendError and for a missing removal on timeout. Behaviours of the model (schedules of alloc / insert / send / timeout / cleanup / reply / route steps) drive the real rpc_call_raw_with_timeout and receiver task; each caller's result must be its own reply or an error, a reply in time must be delivered, and the outstanding-call table must be empty at the end. Peer replies include ones addressed to the reply pid of another incarnation of the node (same number and serial, other creation), which must complete nothing (protection MatchCreation with its own counterexample).",
   "design_ref": "DESIGN.md §5 C17, §2.4",
   "note": "Hook-point granularity; real-time timers (60 ms / 4 s); one node reused across scenarios; fake EPMD through the guarded port override.",
 }
 CHECKS["C19"] = {
   "level": "model_checking",
   "technique": "TLA+ spec of inbound routing and receiver survival (Inbound.tla) model-checked by TLC; TLC-generated frame sequences sent by a scripted peer over TCP to a real Node with recording process handlers, receiver followed through guarded hooks, outcomes compared with the model",
-  "text": "TLC checks ExactRouting, StopsOnlyOnFatal and DeregisteredIffStopped over all sequences of 3 frames (5 good kinds x live / named / terminated / never-existing recipients and an outstanding call, 9 junk kinds, 3 fatal kinds, a local termination in between). Sequences (every kind at both positions of 2-frame sequences, TLC-simulated 5-frame sequences) are sent to a real node: each handler must have been given exactly the model's deliveries in order with sender / reference / reason intact, the outstanding call gets its reply, and the connection stays registered and usable exactly when the model says the receiver is alive. Thorough tier adds real-time quiet periods with ticks (known finding C19-idle-timeout).",
+  "text": "TLC checks ExactRouting, StopsOnlyOnFatal and DeregisteredIffStopped over all sequences of 3 frames (5 good kinds x live / named / terminated / never-existing recipients and an outstanding call, 9 junk kinds, 3 fatal kinds, a local termination in between). Sequences (every kind at both positions of 2-frame sequences, TLC-simulated 5-frame sequences) are sent to a real node: each handler must have been given exactly the model's deliveries in order with sender / reference / reason intact, the outstanding call gets its reply, and the connection stays registered and usable exactly when the model says the receiver is alive. Thorough tier adds real-time quiet periods with ticks (known finding C19-idle-timeout). Recipients include the number and serial of a live process under another creation / another node name (must be dropped). Some scenarios have the peer send its first frame in one piece with its last handshake message. Quiet periods with ticks every 4 s (must survive) and every 12 s (known finding C19-idle-timeout) run in a second runner process in both tiers.",
   "design_ref": "DESIGN.md §5 C19",
   "note": "One connection, pass-through frames only (the node's receiver reads nothing else); fake EPMD via the guarded port override; delivery observed after a 30 ms settle time.",
 }
@@ -118,21 +118,21 @@ CHECKS["C18"] = {
 CHECKS["C07"] = {
   "level": "model_checking",
   "technique": "TLA+ spec of the send path with per-connection lock and partial writes (Connection.tla) model-checked by TLC incl. the lock-free variant; every send operation's frame, captured by a scripted peer, is read by the TLA+ implementation of the protocol (Parse_Wire over Etf/DistHeader) and compared with the control tuple from Control.tla; concurrent senders with a task parked between partial writes",
-  "text": "TLC checks FramesIntact, OrderPerTask and NoWriteBeforeConnected over all interleavings of the partial writes of 2-3 tasks and finds the interleaved-bytes counterexample without the lock. 120 operations x both framing modes are issued on a real Connection; exactly one frame must arrive, readable by the spec's reader as the protocol's control tuple plus payload. Through one Node, 2-4 tasks send concurrently, once with the first sender parked after the length prefix / after the control term (the counterexample's schedule): the second sender must not reach the wire, every frame must parse, be complete, unique and in per-caller order.",
+  "text": "TLC checks FramesIntact, OrderPerTask and NoWriteBeforeConnected over all interleavings of the partial writes of 2-3 tasks and finds the interleaved-bytes counterexample without the lock. 120 operations x both framing modes are issued on a real Connection; exactly one frame must arrive, readable by the spec's reader as the protocol's control tuple plus payload. Through one Node, 2-4 tasks send concurrently, once with the first sender parked after the length prefix / after the control term (the counterexample's schedule): the second sender must not reach the wire, every frame must parse, be complete, unique and in per-caller order. The protection WritesWhole (an operation goes on until the kernel has taken the whole frame) has its own expected counterexample; on the real connection two operations carry a 6 MB payload in both framing modes, the peer starting to read while the operation is in progress.",
   "design_ref": "DESIGN.md §5 C07",
   "note": "Header mode only at Connection level (the node never negotiates it). Hook-point granularity for the forced schedules; free-running concurrency otherwise.",
 }
 CHECKS["C06"] = {
   "level": "model_checking",
   "technique": "TLA+ model of the peer's frame stream (Gen_Recv.tla over the spec's writers Etf!Encode / DistHeader!MsgBytes / protocol fragmentation, with the sender's atom-cache state) sampled by TLC simulation; a scripted peer replays the frames over TCP with arbitrary segmentation into the real Connection; the surfaced results are compared with the model's",
-  "text": "Frame sequences (5 frames over 8 control-message kinds in pass-through, header-with-new-entries, header-referencing-earlier-entries and 2/3-fragment form, ticks, 6 malformed kinds at any position) are generated from the specification, written to the socket whole or in 1/5/13-byte pieces, and read with receive_message and receive_message_from_read_half: each complete message must be returned once, in order, with the control message and payload the peer sent; a malformed frame yields exactly one error and nothing else; ticks never surface; no panic.",
+  "text": "Frame sequences (5 frames over 8 control-message kinds in pass-through, header-with-new-entries, header-referencing-earlier-entries and 2/3-fragment form, ticks, 6 malformed kinds at any position) are generated from the specification, written to the socket whole or in 1/5/13-byte pieces, and read with receive_message and receive_message_from_read_half: each complete message must be returned once, in order, with the control message and payload the peer sent; a malformed frame yields exactly one error and nothing else; ticks never surface; no panic. Header frames define and re-use cache entries in two segments with the same internal indices; every three-frame history over definitions / re-use in both segments is generated exhaustively and the cross-segment ones are always executed.",
   "design_ref": "DESIGN.md §5 C06",
   "note": "Sampled (TLC -simulate), not exhaustive; real sockets, real time. Open finding C06-fragments matched by frame form (fragmented) + deviation (error / different message at the final fragment only).",
 }
 CHECKS["C15"] = {
   "level": "exploration",
   "technique": "typed value universe written in TLA+ (Serde.tla) and enumerated by TLC; each value materialised in the harness' concrete Rust type and sent through to_term/from_term and to_bytes/from_bytes with an identity oracle",
-  "text": "572 boundary values over 36 concrete types (every integer width with its min/max and the 2^31 / 2^63 neighbours, floats incl. -0.0 and extremes, chars up to U+10FFFF, strings that look like atoms, options, sequences, tuples, maps with string and integer keys, plain and ElixirStruct-derived structs, all four enum variant shapes, two-level nestings): the value must come back equal (== and Debug rendering) by both paths, or serialisation must fail; never a different value, a panic or an unreadable encoding.",
+  "text": "726 boundary values over 46 concrete types (every integer width with its min/max and the 2^31 / 2^63 neighbours, floats incl. -0.0 and extremes, chars up to U+10FFFF, strings that look like atoms, options, sequences, tuples, maps with string and integer keys, plain and ElixirStruct-derived structs, all four enum variant shapes, two-level nestings, options around empty / atom-like values: Some([]), Some(\"\"), Some(empty map), Some(unit variant)): the value must come back equal (== and Debug rendering) by both paths, or serialisation must fail; never a different value, a panic or an unreadable encoding.",
   "design_ref": "DESIGN.md §5 C15, §7",
   "note": "Thin use of the specification: it is the enumerator; the oracle is the identity. Bounded universe.",
 }
